@@ -562,9 +562,6 @@ pub enum ProbeFail {
 // interpreter
 // ---------------------------------------------------------------------------------------------
 
-pub struct Report<'a> {
-    pub o: &'a mut Outcome,
-}
 
 /// turns the panics recorded since the last call into violations; returns how many there were
 pub fn report_panics(o: &mut Outcome, stage: &str, detail: &str) -> usize {
@@ -1259,7 +1256,7 @@ pub fn run_hostile_pull(w: &mut World, server: &Peer, plans: &[AnswerPlan], o: &
         let _ = server_task.await;
         (res.map_err(|e| e.to_string()), served.load(std::sync::atomic::Ordering::SeqCst))
     });
-    let detail = format!("hostile pull plans {:?}", plans_summary(plans_ref(&r)));
+    let detail = "answers of a hostile server".to_string();
     match r {
         Guarded::Done((res, served)) => {
             o.count("hostile_queries_answered", served as u64);
@@ -1294,9 +1291,3 @@ pub fn run_hostile_pull(w: &mut World, server: &Peer, plans: &[AnswerPlan], o: &
     }
 }
 
-fn plans_ref<T>(_r: &Guarded<T>) -> &'static str {
-    ""
-}
-fn plans_summary(s: &str) -> &str {
-    s
-}
